@@ -486,3 +486,220 @@ Section Glue.
         apply cmark_item_sim; auto. apply ctrace_sim; auto.
   Qed.
 End Glue.
+
+Lemma NoDup_map_inj {A B} (f : A -> B) (l : list A) :
+  NoDup l -> (forall x y, In x l -> In y l -> f x = f y -> x = y) -> NoDup (map f l).
+Proof.
+  induction l as [|a l IH]; intros Hnd Hinj; simpl; constructor.
+  - intros Hin. apply in_map_iff in Hin. destruct Hin as [x [Hp Hx]]. inversion Hnd; subst.
+    assert (x = a) by (apply Hinj; simpl; auto). subst x. contradiction.
+  - inversion Hnd; subst. apply IH; [assumption|]. intros x y Hx Hy. apply Hinj; simpl; auto.
+Qed.
+
+(* ------------------------------------------------------------------ 4. composition *)
+Section Compose.
+  Variable hashf : N -> N.
+  Variable h : heap.
+
+  (* the concrete compaction loop of GC_Sweep run on the registry the concrete mark phase left:
+     what is reclaimed, what is kept *)
+  Definition reclaimed_by_sweep (g1 : gc) (l' : list gslot) (rm : list gentry) : Prop :=
+    sweep_loop (length (slots g1) + occupied gentry (slots g1) + 1) (slots g1) 0 (nitems g1) [] (evs g1)
+      = Some (l', nitems g1 - length rm, pend_of rm, reclaim_evs rm ++ evs g1).
+
+  Theorem glue_collect_safe_thm : forall g tls stack,
+    Inv hashf g -> Quiet g -> addr_ok (slots g) ->
+    wf h (areg (slots g)) tls -> raw_wf h (areg (slots g)) ->
+    exists g1 l' rm,
+      cmark hashf h (fuel_of h (areg (slots g)) (aorder (slots g))) tls stack g = Ok g1 /\
+      InvM hashf g1 /\ Quiet g1 /\ PW (slots g) (slots g1) /\
+      reclaimed_by_sweep g1 l' rm /\ Core hashf l' /\
+      (* kept: every registered object that is root-flagged or reachable *)
+      (forall p s, Reg g p s -> (s = true \/ reach h (areg (slots g)) tls stack p) ->
+         (exists e, Holds l' e /\ ptr e = p /\ root e = s) /\ ~ In p (map ptr rm)) /\
+      (* reclaimed: only registered, non-root, unreachable objects, each once *)
+      (forall x, In x rm -> Reg g (ptr x) false /\ ~ reach h (areg (slots g)) tls stack (ptr x)) /\
+      NoDup (map ptr rm).
+  Proof.
+    intros g tls stack Hinv Hq Ha Hwf Hraw. pose proof Hinv as [Hm Hcl].
+    pose proof (inv_core hashf g Hm) as Hc.
+    set (rg := areg (slots g)). set (order := aorder (slots g)).
+    pose proof (arange_ok hashf g Hm Ha) as Hrange.
+    pose proof (aorder_ok hashf (slots g) Hc Ha) as Horder.
+    destruct (mark_fuel_adequate_thm h rg (minptr g) (maxptr g) order tls stack Hrange Horder Hwf Hraw) as [m' Hmark].
+    pose proof (mark_exact_thm h rg (minptr g) (maxptr g) order tls stack _ m' Hrange Horder Hmark) as Hexact.
+    (* the concrete mark phase *)
+    assert (Hc1 : exists g1, cmark hashf h (fuel_of h rg order) tls stack g = Ok g1 /\
+                    InvM hashf g1 /\ Quiet g1 /\ PW (slots g) (slots g1) /\
+                    forall q, Marked (slots g1) q <-> marked m' q = true).
+    { destruct (Nat.eq_dec (nitems g) 0) as [Hz|Hnz].
+      - exists g. unfold cmark. rewrite Hz. cbn [Nat.eqb]. split; [reflexivity|].
+        split; [exact Hm|]. split; [exact Hq|]. split; [apply PW_refl|].
+        assert (Hem : entries (slots g) = []).
+        { pose proof (inv_count hashf g Hm) as Hcnt. rewrite Hz, (occupied_entries gentry) in Hcnt.
+          destruct (entries (slots g)); [reflexivity|discriminate]. }
+        unfold mark in Hmark. unfold order, aorder in Hmark. rewrite Hem in Hmark. cbn [map] in Hmark.
+        injection Hmark as <-. intros q. rewrite marked_nempty. split; [|discriminate].
+        intros [e [He _]]. apply (in_entries gentry) in He. rewrite Hem in He. destruct He.
+      - pose proof (cmark_sim hashf h g (fuel_of h rg order) tls stack Hinv Hq Ha Hnz) as Hs.
+        fold rg order in Hs. rewrite Hmark in Hs.
+        destruct (cmark hashf h (fuel_of h rg order) tls stack g) as [g1| |]; try contradiction.
+        exists g1. split; [reflexivity|]. destruct Hs. auto. }
+    destruct Hc1 as (g1 & Hcm & Hm1 & Hq1 & Hpw & Hmk).
+    pose proof (inv_core hashf g1 Hm1) as Hcore1.
+    assert (Hroom : length (slots g1) = 0 \/ occupied gentry (slots g1) < length (slots g1)).
+    { destruct (inv_room hashf g1 Hm1) as [Hz|Hlt]; [left; exact Hz|right].
+      rewrite <- (inv_count hashf g1 Hm1). exact Hlt. }
+    destruct (sweep_loop_exact_thm hashf (slots g1) (nitems g1) [] (evs g1) Hcore1 Hroom)
+      as (l' & rm & Hsw & Hcl' & _ & Hkeep & Hrm & Hcnt).
+    exists g1, l', rm. split; [exact Hcm|]. split; [exact Hm1|]. split; [exact Hq1|]. split; [exact Hpw|].
+    split; [exact Hsw|]. split; [exact Hcl'|].
+    assert (Hreg1 : forall x, Holds (slots g1) x -> Reg g (ptr x) (root x)).
+    { intros x Hx. destruct (PW_holds _ _ _ Hpw Hx) as [y [Hy [Hp Hr]]]. exists y. auto. }
+    split; [|split].
+    - intros p s Hreg Hwhy.
+      assert (Hregd : registered rg p = true)
+        by (apply (registered_areg hashf (slots g) p Hc Ha); exists s; exact Hreg).
+      assert (Hroot : is_root rg p = s).
+      { destruct Hreg as [e [He [Hp Hr]]]. subst p s. apply (is_root_areg hashf); assumption. }
+      assert (Hmp : marked m' p = true).
+      { apply Hexact. split; [exact Hregd|]. destruct Hwhy as [->|Hr]; [left; exact Hroot|right; exact Hr]. }
+      apply Hmk in Hmp. destruct Hmp as [e [He [Hp Hme]]].
+      assert (Hk : keeper e = true) by (unfold keeper; rewrite Hme; reflexivity).
+      split.
+      + exists e. split; [apply Hkeep; auto|]. split; [exact Hp|].
+        destruct (Hreg1 e He) as [y [Hy [Hpy Hry]]]. destruct Hreg as [z [Hz [Hpz Hrz]]].
+        assert (y = z) by (apply (Core_UQ_same hashf (slots g) y z Hc Hy Hz); congruence). subst y. congruence.
+      + intros Hin. apply in_map_iff in Hin. destruct Hin as [x [Hpx Hx]]. apply Hrm in Hx. destruct Hx as [Hx Hkx].
+        assert (x = e) by (apply (Core_UQ_same hashf (slots g1) x e Hcore1 Hx He); congruence). subst x. congruence.
+    - intros x Hx. apply Hrm in Hx. destruct Hx as [Hx Hkx]. unfold keeper in Hkx.
+      apply orb_false_iff in Hkx. destruct Hkx as [Hmx Hrx].
+      pose proof (Hreg1 x Hx) as Hr. rewrite Hrx in Hr. split; [exact Hr|].
+      intros Hreach.
+      assert (Hregd : registered rg (ptr x) = true)
+        by (apply (registered_areg hashf (slots g) (ptr x) Hc Ha); exists false; exact Hr).
+      assert (Hmp : marked m' (ptr x) = true) by (apply Hexact; auto).
+      apply Hmk in Hmp. destruct Hmp as [e [He [Hp Hme]]].
+      assert (e = x) by (apply (Core_UQ_same hashf (slots g1) e x Hcore1 He Hx); exact Hp). subst e. congruence.
+    - (* each reclaimed address once: counting.  rm contains every non-keeper of g1, and has exactly as
+         many elements as there are non-keepers (count equation of sweep_loop_exact) *)
+      assert (Hinj : forall x y, In x rm -> In y rm -> ptr x = ptr y -> x = y).
+      { intros x y Hx Hy Hp. apply Hrm in Hx. apply Hrm in Hy.
+        apply (Core_UQ_same hashf (slots g1) x y Hcore1); tauto. }
+      assert (HndE : forall l, Core hashf l -> NoDup (entries l)).
+      { intros l [_ [_ Huq]]. apply NoDup_map_inv with (f := ptr). apply (UQ_NoDup N gentry ptr). exact Huq. }
+      set (E := entries (slots g1)).
+      set (K := filter keeper E). set (NK := filter (fun x => negb (keeper x)) E).
+      assert (Hpart : length K + length NK = length E).
+      { unfold K, NK. clear. induction E as [|a E IH]; simpl; [reflexivity|]. destruct (keeper a); simpl; lia. }
+      assert (HK : length (entries l') = length K).
+      { apply Nat.le_antisymm.
+        - apply NoDup_incl_length; [apply HndE; exact Hcl'|]. intros x Hx. apply (in_entries gentry) in Hx.
+          apply Hkeep in Hx. unfold K. apply filter_In. split; [apply (in_entries gentry); tauto|tauto].
+        - apply NoDup_incl_length; [apply NoDup_filter; apply HndE; exact Hcore1|]. intros x Hx.
+          unfold K in Hx. apply filter_In in Hx. destruct Hx as [Hx Hk]. apply (in_entries gentry).
+          apply Hkeep. split; [apply (in_entries gentry); exact Hx|exact Hk]. }
+      assert (Hlen : length rm = length NK).
+      { rewrite !(occupied_entries gentry) in Hcnt. fold E in Hcnt. lia. }
+      assert (Hnd : NoDup rm).
+      { apply NoDup_incl_NoDup with (l := NK).
+        - unfold NK. apply NoDup_filter. apply HndE. exact Hcore1.
+        - lia.
+        - intros x Hx. unfold NK in Hx. apply filter_In in Hx. destruct Hx as [Hx Hk]. apply negb_true_iff in Hk.
+          apply Hrm. split; [apply (in_entries gentry); exact Hx|exact Hk]. }
+      apply NoDup_map_inj; assumption.
+  Qed.
+End Compose.
+
+(* every history the C17 model admits: the registry hypotheses of C01 hold in the state it reaches *)
+Theorem glue_registry_hypotheses_thm : forall hashf d rf nf ops, dtors_ok d ->
+  Gadm hashf d rf nf ops gc_init ->
+  let g := Grun hashf d rf nf ops gc_init in
+  addr_ok (slots g) ->
+  order_ok (areg (slots g)) (aorder (slots g)) /\
+  range_ok (areg (slots g)) (minptr g) (maxptr g) /\
+  (forall p, gc_mem hashf g p = Some (registered (areg (slots g)) p)) /\
+  (forall p s, nget p (areg (slots g)) = Some s <-> led (evs g) p s) /\
+  (forall q, ~ Marked (slots g) q) /\
+  pending g = [].
+Proof.
+  intros hashf d rf nf ops Hd Hadm g Ha.
+  destruct (registry_history_thm hashf d rf nf ops Hd Hadm) as [[Hm Hcl] Hq]. fold g in Hm, Hcl, Hq.
+  pose proof (inv_core hashf g Hm) as Hc.
+  split; [apply (aorder_ok hashf); assumption|]. split; [apply (arange_ok hashf); assumption|].
+  split; [intros p; apply (gc_mem_areg hashf); assumption|].
+  split; [intros p s; rewrite (areg_spec hashf (slots g) p s Hc Ha); apply (inv_led hashf g Hm)|].
+  split; [|exact Hq].
+  intros q [e [He [_ Hme]]]. rewrite (Hcl e He) in Hme. discriminate.
+Qed.
+
+(* the composed statement: a collection run with the CONCRETE registry reached by any C17-admissible
+   history — mark phase with the probe-loop lookup, then the concrete compaction loop — terminates,
+   keeps every registered object that is root-flagged or reachable, reclaims only registered non-root
+   unreachable objects (each once), and the whole GC_Sweep (finaliser loop included) then succeeds and
+   re-establishes C17's invariant *)
+Theorem glue_history_collect_safe_thm : forall hashf d rf nf ops h tls stack, dtors_ok d ->
+  Gadm hashf d rf nf ops gc_init ->
+  let g := Grun hashf d rf nf ops gc_init in
+  addr_ok (slots g) -> wf h (areg (slots g)) tls -> raw_wf h (areg (slots g)) ->
+  exists g1 l' rm,
+    cmark hashf h (fuel_of h (areg (slots g)) (aorder (slots g))) tls stack g = Ok g1 /\
+    PW (slots g) (slots g1) /\
+    reclaimed_by_sweep g1 l' rm /\
+    (forall p s, led (evs g) p s -> (s = true \/ reach h (areg (slots g)) tls stack p) ->
+       (exists e, Holds l' e /\ ptr e = p /\ root e = s) /\ ~ In p (map ptr rm)) /\
+    (forall x, In x rm -> led (evs g) (ptr x) false /\ ~ reach h (areg (slots g)) tls stack (ptr x)) /\
+    NoDup (map ptr rm) /\
+    exists g2, Gsweep hashf d rf nf g1 = Some g2 /\ Inv hashf g2 /\ Quiet g2.
+Proof.
+  intros hashf d rf nf ops h tls stack Hd Hadm g Ha Hwf Hraw.
+  destruct (registry_history_thm hashf d rf nf ops Hd Hadm) as [Hinv Hq]. fold g in Hinv, Hq.
+  destruct (glue_collect_safe_thm hashf h g tls stack Hinv Hq Ha Hwf Hraw)
+    as (g1 & l' & rm & Hcm & Hm1 & Hq1 & Hpw & Hsw & _ & Hkeep & Hrm & Hnd).
+  exists g1, l', rm. split; [exact Hcm|]. split; [exact Hpw|]. split; [exact Hsw|].
+  pose proof (inv_led hashf g (proj1 Hinv)) as Hled.
+  split; [|split; [|split; [exact Hnd|]]].
+  - intros p s Hl. apply Hkeep. apply Hled. exact Hl.
+  - intros x Hx. destruct (Hrm x Hx) as [Hr Hn]. split; [apply Hled; exact Hr|exact Hn].
+  - apply sweep_total_thm; assumption.
+Qed.
+
+(* ------------------------------------------------------------------ non-vacuity: C17's example history
+   (five colliding allocations 8 48 88 16 24, 11 slots) with a heap over these five objects:
+   8 -> 16 (plain), 16 = Tuple (24, 8), 24 = Array [Ref 16], 48 plain, 88 -> 88; the stack holds 8 *)
+Definition addr_ok_b (sl : list gslot) : bool :=
+  forallb (fun e => negb (N.eqb (ptr e) 0) && N.eqb (N.modulo (ptr e) 8) 0) (entries sl).
+Lemma addr_ok_b_sound sl : addr_ok_b sl = true -> addr_ok sl.
+Proof.
+  unfold addr_ok_b, addr_ok. rewrite forallb_forall. intros H e He. apply (in_entries gentry) in He.
+  specialize (H e He). apply andb_true_iff in H. destruct H as [H1 H2].
+  apply negb_true_iff, N.eqb_neq in H1. apply N.eqb_eq in H2. auto.
+Qed.
+
+Definition glue_ops : list op := firstn 5 ex_ops.
+Definition glue_g : gc := Grun ex_hash ex_d false false glue_ops gc_init.
+Definition glue_heap : heap :=
+  nset 8%N (Words [16%N]) (nset 16%N (Items [24%N; 8%N]) (nset 24%N (Elems [Words [16%N]])
+  (nset 48%N (Words []) (nset 88%N (Words [88%N]) nempty)))).
+Definition glue_stack : list word := [8%N; 3%N].
+
+Definition glue_reclaimed : list N := [88%N; 48%N].
+Definition glue_kept : list N := [8%N; 16%N; 24%N].
+
+Lemma glue_example :
+  Gadm ex_hash ex_d false false glue_ops gc_init /\
+  addr_ok (slots glue_g) /\ wf glue_heap (areg (slots glue_g)) [] /\ raw_wf glue_heap (areg (slots glue_g)) /\
+  exists g1 l' rm,
+    cmark ex_hash glue_heap (fuel_of glue_heap (areg (slots glue_g)) (aorder (slots glue_g))) [] glue_stack glue_g = Ok g1 /\
+    reclaimed_by_sweep g1 l' rm /\ map ptr rm = glue_reclaimed /\ map ptr (entries l') = glue_kept.
+Proof.
+  split; [apply adm_runb_ok; vm_compute; reflexivity|].
+  split; [apply addr_ok_b_sound; vm_compute; reflexivity|].
+  split; [apply wf_b_sound; vm_compute; reflexivity|].
+  split.
+  - exists (fun _ => 0). split; [intros p; lia|apply rawdec_b_sound; vm_compute; reflexivity].
+  - eexists. eexists. exists [mkE 88%N false false; mkE 48%N false false].
+    split; [vm_compute; reflexivity|].
+    split; [unfold reclaimed_by_sweep; vm_compute; reflexivity|].
+    split; vm_compute; reflexivity.
+Qed.
